@@ -3,14 +3,16 @@ import ScVerif.C18.ModeLemmas
 /-!
 # C18 — the heap models compute the pure model
 
-The heap versions of `Cut`, `Shift`, `modepb.Shift` and `modepb.Cut` (HeapOps, HeapModeOps) carry the frame theorems ("never
+The heap versions of `Cut`, `Shift`, `Sum`, `modepb.Shift`, `modepb.Cut` and `modepb.Sum` (HeapOps, HeapModeOps) carry the frame theorems ("never
 modify their arguments"); the pure versions (`cutSeg`, `shift`, `modeShift`) are what the driver runs against the
 Go code and what the step-function theorems speak about.  Here the two are connected for ALL inputs, not by
 examples: reading the result of the heap version back through the final heap gives the result of the pure
 version on the argument read through the initial heap.  For `modepb.Cut` this includes the two stores into the
 clones' backing arrays (`before.Segments = append(before.Segments[:index], sb)`, `after.Segments[index] = sa`) and the
 re-slicing around them.  Hypothesis: the slice's elements are addresses of
-existing cells (a Go slice of non-nil pointers).  (For the loop of `Sum` the same statement is `heapLoop_inv`.)
+existing cells (a Go slice of non-nil pointers).  For `Sum` the loop invariant `heapLoop_inv` gives the cells; `heapSum_refines` reads them back through the
+`result` slice.  `modepb.Sum` hands the results of `Shift` on to `Sum`: that needs the result slices of `Shift` to
+stay readable in later heaps (`heapShift_valid`).
 -/
 namespace ScVerif.C18
 
@@ -473,5 +475,256 @@ theorem heapModeCut_refines (h : Heap) (t : Int) (m : HeapMode) (harr : m.segs.a
           rw [← hb1, ← hb2] <;> simp only [Option.map_some] <;>
           refine ⟨?_, ?_, trivial⟩ <;> simp [asm.1, asm.2]
     · simp [hgt]
+
+/-! ### `segmentpb.Sum` as a whole -/
+
+theorem addrsFrom_read (H0 vals : List Seg) (n : Nat) (hn : n ≤ vals.length) :
+    (addrsFrom H0.length n).map (fun a => ((H0 ++ vals)[a]?).getD nilSeg) = vals.take n := by
+  induction n with
+  | zero => simp [addrsFrom]
+  | succ n ih =>
+    have hlt : n < vals.length := by omega
+    simp only [addrsFrom, List.map_append, List.map_cons, List.map_nil, ih (by omega)]
+    rw [List.take_add_one, List.getElem?_append_right (by omega)]
+    simp [hlt]
+
+/-- The `result` slice of the heap version of `Sum` reads as the list the literal loop `sumGoStep` builds; with
+the final trimming applied it is `sumGoEdges`, i.e. (SumLemmas) `sumEdges`. -/
+theorem heapSum_refines (h : Heap) (cuts : List Edge) :
+    readSegs (heapSum h cuts).1 (heapSum h cuts).2 = (cuts.foldl sumGoStep ([], 0)).1 := by
+  have hinv := heapLoop_inv h.cells cuts [] ⟨h.cells, [], 0⟩ ⟨by simp, rfl⟩
+  obtain ⟨h1, h2⟩ := hinv
+  simp only [heapSum]
+  rw [readSegs_allocArr_new _ _ _ (Nat.le_refl _)]
+  simp only [h1, h2]
+  have := addrsFrom_read h.cells (cuts.foldl sumGoStep ([], 0)).1 _ (Nat.le_refl _)
+  rw [List.take_length] at this
+  exact this
+
+theorem heapSum_sum (h : Heap) (ls : List (List Seg)) :
+    trimLast (dropRule (anyInfinite ls)) (readSegs (heapSum h (calcCuts ls)).1 (heapSum h (calcCuts ls)).2) =
+      sum ls := by
+  rw [heapSum_refines]
+  exact sumGoEdges_eq _ _
+
+
+/-! ### result slices stay readable: what `modepb.Sum` needs to hand the results of `Shift` on to `Sum` -/
+
+/-- A slice whose elements are existing cells and whose array exists (or which is empty). -/
+def ValidSlice (h : Heap) (sl : Slice) : Prop :=
+  ValidAddrs h (readSlice h sl) ∧ (sl.arr < h.arrays.length ∨ sl.len = 0)
+
+theorem readSegs_extends' {h0 h : Heap} (e : h0.Extends h) (sl : Slice) (vs : ValidSlice h0 sl) :
+    readSegs h sl = readSegs h0 sl := by
+  rcases vs.2 with ha | h0len
+  · exact readSegs_extends e sl ha vs.1
+  · simp [readSegs, readSlice, h0len]
+
+theorem ValidSlice.extends {h0 h : Heap} {sl : Slice} (vs : ValidSlice h0 sl) (e : h0.Extends h) :
+    ValidSlice h sl := by
+  rcases vs.2 with ha | h0len
+  · refine ⟨?_, Or.inl (Nat.lt_of_lt_of_le ha e.arrays_le)⟩
+    rw [readSlice_extends e sl ha]
+    exact vs.1.extends e
+  · refine ⟨?_, Or.inr h0len⟩
+    intro a hmem
+    simp [readSlice, h0len] at hmem
+
+theorem validSlice_allocArr (h : Heap) (xs : List Nat) (n : Nat) (v : ValidAddrs h xs) :
+    ValidSlice (allocArr h xs).1 ⟨(allocArr h xs).2, 0, n⟩ := by
+  refine ⟨?_, Or.inl (by simp [allocArr])⟩
+  intro a hmem
+  have : a ∈ xs := by
+    simp only [readSlice, allocArr] at hmem
+    simp at hmem
+    exact List.mem_of_mem_take hmem
+  exact v a this
+
+theorem heapCut_after_valid (h : Heap) (d : Int) (addr : Nat) (ha : addr < h.cells.length) (l : Int)
+    (hl : (readCell h addr).len = some l) (hlt : d < l) :
+    ∃ x, (heapCut h d addr).2.2.1 = some x ∧ x < (heapCut h d addr).1.cells.length := by
+  unfold heapCut
+  simp only []
+  by_cases hd : d ≤ 0
+  · simp only [hd, if_true]
+    exact ⟨addr, rfl, ha⟩
+  · simp only [hd, if_false, hl]
+    have : ¬ l ≤ d := by omega
+    simp only [this, if_false]
+    exact ⟨_, rfl, by simp [allocCell]⟩
+
+theorem heapShiftNegLoop_valid (h : Heap) (d : Int) (sl : Slice) (cur : Int) (i : Nat) (elems : List Nat)
+    (hel : elems = (readSlice h sl).drop i) (v : ValidAddrs h elems) (hs : sl.arr < h.arrays.length ∨ sl.len = 0) :
+    ValidSlice (heapShiftNegLoop h d sl cur i elems).1 (heapShiftNegLoop h d sl cur i elems).2 := by
+  induction elems generalizing cur i with
+  | nil =>
+    refine ⟨?_, Or.inr rfl⟩
+    intro a hmem
+    simp [heapShiftNegLoop, readSlice] at hmem
+  | cons a rest ih =>
+    have hrest : rest = (readSlice h sl).drop (i + 1) := by
+      have := congrArg List.tail hel
+      simpa [List.tail_drop] using this
+    simp only [heapShiftNegLoop]
+    cases hl : (readCell h a).len with
+    | none =>
+      simp only []
+      have hrd : readSlice h ⟨sl.arr, sl.off + i, sl.len - i⟩ = a :: rest := by
+        rw [hel]
+        simp only [readSlice, List.drop_take, List.drop_drop]
+      refine ⟨by rw [hrd]; exact v, ?_⟩
+      rcases hs with h1 | h2
+      · exact Or.inl h1
+      · exact Or.inr (by simp [h2])
+    | some l =>
+      simp only []
+      by_cases hc : cur + l > d
+      · simp only [hc, if_true]
+        have ha : a < h.cells.length := v a (List.mem_cons_self)
+        obtain ⟨x, hx, hxv⟩ := heapCut_after_valid h (d - cur) a ha l hl (by omega)
+        apply validSlice_allocArr
+        intro b hb
+        rw [hx] at hb
+        simp only [Option.getD_some, List.mem_cons] at hb
+        rcases hb with rfl | hb
+        · exact hxv
+        · exact (heapCut_extends h (d - cur) a).cells_lt (v.tail b hb)
+      · simp only [hc, if_false]
+        exact ih (cur + l) (i + 1) hrest v.tail
+
+theorem heapShift_valid (h : Heap) (d : Int) (sl : Slice) (vs : ValidSlice h sl) :
+    ValidSlice (heapShift h d sl).1 (heapShift h d sl).2 := by
+  unfold heapShift
+  simp only []
+  by_cases hd : d = 0
+  · simp only [hd, if_true]; exact vs
+  · simp only [hd, if_false]
+    cases hel : readSlice h sl with
+    | nil => exact vs
+    | cons first rest =>
+      have v := vs.1
+      rw [hel] at v
+      simp only []
+      by_cases hpos : d > 0
+      · simp only [hpos, if_true]
+        by_cases hmag : (readCell h first).mag = 0
+        · simp only [hmag, if_true]
+          cases hl : (readCell h first).len with
+          | none => exact vs
+          | some l =>
+            simp only []
+            apply validSlice_allocArr
+            intro b hb
+            simp only [List.mem_cons] at hb
+            rcases hb with rfl | hb
+            · simp [allocCell]
+            · exact (allocCell_extends h _).cells_lt (v.tail b hb)
+        · simp only [hmag, if_false]
+          apply validSlice_allocArr
+          intro b hb
+          simp only [List.mem_cons] at hb
+          rcases hb with rfl | hb
+          · simp [allocCell]
+          · exact (allocCell_extends h _).cells_lt (v b (by simpa using hb))
+      · simp only [hpos, if_false]
+        exact heapShiftNegLoop_valid h (-d) sl 0 0 (first :: rest) (by simp [hel]) v vs.2
+
+
+/-! ### `modepb.Sum` -/
+
+/-- The mode a heap mode reads as. -/
+def HeapMode.toMode (h : Heap) (m : HeapMode) : Mode := ⟨m.start, readSegs h m.segs⟩
+
+theorem heapAlign_refines (e l : Int) (h : Heap) (ms : List HeapMode) (v : ∀ m ∈ ms, ValidSlice h m.segs) :
+    (heapAlign e l h ms).2.map (readSegs (heapAlign e l h ms).1) = alignLoop e l (ms.map (HeapMode.toMode h)) ∧
+    ∀ sl ∈ (heapAlign e l h ms).2, ValidSlice (heapAlign e l h ms).1 sl := by
+  induction ms generalizing h with
+  | nil => exact ⟨rfl, fun sl hsl => by simp [heapAlign] at hsl⟩
+  | cons m ms ih =>
+    have vm := v m (List.mem_cons_self)
+    have e1 := heapShift_extends h (m.start.getD l - e) m.segs
+    have v' : ∀ m' ∈ ms, ValidSlice (heapShift h (m.start.getD l - e) m.segs).1 m'.segs :=
+      fun m' hm' => (v m' (List.mem_cons_of_mem _ hm')).extends e1
+    have ih' := ih (heapShift h (m.start.getD l - e) m.segs).1 v'
+    have e2 := heapAlign_extends e l (heapShift h (m.start.getD l - e) m.segs).1 ms
+    have hv := heapShift_valid h (m.start.getD l - e) m.segs vm
+    have hmodes : ms.map (HeapMode.toMode (heapShift h (m.start.getD l - e) m.segs).1) =
+        ms.map (HeapMode.toMode h) := by
+      apply List.map_congr_left
+      intro m' hm'
+      simp only [HeapMode.toMode, readSegs_extends' e1 m'.segs (v m' (List.mem_cons_of_mem _ hm'))]
+    simp only [heapAlign, alignLoop, List.map_cons]
+    refine ⟨?_, ?_⟩
+    · rw [ih'.1, hmodes, readSegs_extends' e2 _ hv, heapShift_refines h _ m.segs vm.1]
+      rfl
+    · intro sl hsl
+      simp only [List.mem_cons] at hsl
+      rcases hsl with rfl | hsl
+      · exact hv.extends e2
+      · exact ih'.2 sl hsl
+
+/-- The lists `modepb.Sum` hands to `segmentpb.Sum`: aligned to the earliest start time if any mode has one. -/
+def modeSumLists (ms : List Mode) : List (List Seg) :=
+  match startsLoop none none ms with
+  | (some e, some l) => alignLoop e l ms
+  | _ => ms.map (·.segs)
+
+theorem heapModeSum_refines (h : Heap) (ms : List HeapMode) (v : ∀ m ∈ ms, ValidSlice h m.segs) :
+    (heapModeSum h ms).2.map (fun r => (⟨r.start,
+        trimLast (dropRule (anyInfinite (modeSumLists (ms.map (HeapMode.toMode h)))))
+          (readSegs (heapModeSum h ms).1 r.segs)⟩ : Mode)) =
+      modeSum (ms.map (HeapMode.toMode h)) := by
+  cases ms with
+  | nil => rfl
+  | cons m ms' =>
+    have hal := fun e l => heapAlign_refines e l h (m :: ms') v
+    have hmap : (m :: ms').map (fun m => readSegs h m.segs) = ((m :: ms').map (HeapMode.toMode h)).map (·.segs) := by
+      simp [HeapMode.toMode]
+    have hst : (m :: ms').map (fun m => (⟨m.start, readSegs h m.segs⟩ : Mode)) = (m :: ms').map (HeapMode.toMode h) := rfl
+    unfold heapModeSum modeSum modeSumLists
+    simp only [hst]
+    generalize startsLoop none none (List.map (HeapMode.toMode h) (m :: ms')) = st
+    rcases st with ⟨_ | e, _ | l⟩ <;> simp only [Option.map_some]
+    · rw [hmap, heapSum_sum]; rfl
+    · rw [hmap, heapSum_sum]; rfl
+    · rw [hmap, heapSum_sum]; rfl
+    · rw [← (hal e l).1, heapSum_sum]; rfl
+
+/-! ### `modepb.Shift` with the mode as a heap object (HeapTrace) -/
+
+theorem readMode_setMode_new (b : Heap) (ms : List ModeObj) (x : ModeObj) (f : ModeObj → ModeObj) :
+    readMode (setMode ⟨b, ms ++ [x]⟩ ms.length f) ms.length = f x := by
+  simp only [readMode, setMode, modifyNth_length_append]
+  simp
+
+theorem modeShiftTrace_refines (h : HeapM) (d : Int) (p : Nat) (v : ValidMode h p) :
+    observe (((modeShiftTrace false h d p).1.getLast?).getD h) (modeShiftTrace false h d p).2 =
+      ((modeShift d ⟨(observe h p).1, (observe h p).2⟩).start,
+       (modeShift d ⟨(observe h p).1, (observe h p).2⟩).segs) := by
+  obtain ⟨_, _, hc⟩ := v
+  have va : ValidAddrs h.base (readSlice h.base (readMode h p).segs) := hc
+  have hcl := cloneSlice_refines h.base (readMode h p).segs va
+  unfold modeShiftTrace modeShift
+  by_cases hd : d = 0
+  · simp [hd, observe]
+  · simp only [hd, if_false, observe]
+    cases hs : (readMode h p).start with
+    | none =>
+      simp only [Bool.false_eq_true, if_false, List.getLast?_cons_cons, List.getLast?_singleton, Option.getD_some]
+      simp only [cloneMode, allocMode]
+      rw [readMode_setMode_new]
+      simp only [hs]
+      have hrm : readMode ⟨(cloneSlice h.base (readMode h p).segs).1,
+          h.modes ++ [⟨none, (cloneSlice h.base (readMode h p).segs).2⟩]⟩ h.modes.length =
+          ⟨none, (cloneSlice h.base (readMode h p).segs).2⟩ := by
+        simp [readMode]
+      simp only [setMode, hrm]
+      rw [heapShift_refines _ d _ hcl.2, hcl.1]
+    | some s =>
+      simp only [Bool.false_eq_true, if_false, List.getLast?_cons_cons, List.getLast?_singleton, Option.getD_some]
+      simp only [cloneMode, allocMode]
+      rw [readMode_setMode_new]
+      simp only [hs, setMode]
+      rw [hcl.1]
 
 end ScVerif.C18
